@@ -15,10 +15,18 @@ mod c20;
 mod prom;
 mod sched;
 mod expo;
+mod c12;
+mod c03;
+mod alloc;
+mod c14;
 mod util;
 
 use std::path::PathBuf;
 use util::{Cfg, Out};
+
+/// pass-through to `System` until `alloc::install()` is called (only C14 does)
+#[global_allocator]
+static GLOBAL: alloc::Tracking = alloc::Tracking;
 
 fn main() {
     let args: Vec<String> = std::env::args().collect();
@@ -66,6 +74,9 @@ fn main() {
         "C13" => c13::run(&cfg, &mut out),
         "C17" => c17::run(&cfg, &mut out),
         "C20" => c20::run(&cfg, &mut out),
+        "C12" => c12::run(&cfg, &mut out),
+        "C03" => c03::run(&cfg, &mut out),
+        "C14" => c14::run(&cfg, &mut out),
         other => {
             eprintln!("unknown property {}", other);
             std::process::exit(2);
